@@ -6,11 +6,8 @@ THEOREMS = []   # filled in below once the proof modules exist
 
 def check(run):
     run.level = "proof"
-    try:
-        from checks import _c06_theorems
-        run.prove("ZkProofs.C06", _c06_theorems.THEOREMS)
-    except ImportError:
-        run.note("proof module for C06 not present yet")
+    from checks import _tree_theorems
+    run.prove(_tree_theorems.C06)
     rng = run.rng
     quick = run.tier == "quick"
     nseq = 40 if quick else 400
